@@ -516,8 +516,7 @@ def _sh(nsub, nops):
             product_pins(subject=list(range(nsub)), k=[2], g0=[0, 1, 2, 3])
         if tier == "quick":
             return base
-        return base + product_pins(subject=list(range(min(nsub, 3))), k=[3], o0=list(range(nops)),
-                                   o1=list(range(0, nops, 2)))
+        return base + product_pins(subject=[0, nsub - 1], k=[3], o0=list(range(nops)))
     return shards
 
 
